@@ -28,8 +28,10 @@ def run(ctx):
     st, tr, dinfo, guard = L.design(ctx, by_name, with_guard=True)
     tot, samples = L.replay(ctx, files, "both", ["C03."], explore_bound=0, maxcalls=300000 if q else 600000,
                             nwalks=25 if q else 80, walklen=50 if q else 120, maxpar=8 if q else 12)
+    curved = [] if L.skip("fixtures") else L.curved_files(ctx, 3 if q else 40)
     ftot, fsamples = L.fixtures(ctx, ["C03."], nrays=300 if q else 20000, nwalks=250 if q else 6000,
-                                nprobes=0, nturns=350 if q else 12000, maxpar=8 if q else 12, nshards=6 if q else 12)
+                                nprobes=0, nturns=350 if q else 12000, maxpar=8 if q else 12, nshards=6 if q else 12,
+                                extra_files=curved)
     ctx.coverage.update({
         "traces_validated_against_impl": tot["traces"] + ftot["fixtures"],
         "samples": samples + fsamples,
@@ -45,7 +47,7 @@ def run(ctx):
         "design": dinfo, "vacuity_guard_ascoded": guard,
         "lattice": {k: tot[k] for k in ("traces", "calls", "inits", "judged", "unjudged", "states", "exhaustive_worlds",
                                          "truncated_worlds", "per_op", "other_clauses")},
-        "lattice_worlds": len(files),
+        "lattice_worlds": len(files), "curved_worlds": len(curved),
         "fixtures": {k: ftot[k] for k in ("fixtures", "records", "oracle_queries", "discarded", "normals", "facts", "skipped", "stat",
                                            "dev", "other_clauses")},
     })
@@ -62,6 +64,11 @@ def run(ctx):
         "again after reversing on a crossed boundary) is a documented null-op and is never generated",
         "exploration identifies navigator states with equal protocol state (position, direction, phase, cached step): histories "
         "are enumerated modulo that equivalence; seeded random walks complement it",
+        "boundary turns: on every boundary reached a fresh direction (generic, turned back, deflected, nearly tangent) is set "
+        "with probability 3/4 before cross_boundary; the exiting / re-entrant decision is judged against the sign of "
+        "(direction . true normal) from the oracle (clause C03.ReentrantDecision) and the volume after the crossing against "
+        "point location a small distance along the true normal; geometries: the bundled fixtures plus seeded curved worlds "
+        "(spheres / cylinders in boxes under arbitrary rotations / reflections, three levels) built through orangeinp",
         "fixtures: truth = tools/oracle_geo.py (independent evaluation of quadrics + volume logic from the JSON); points within "
         "1e-6 relative of a surface, overlapping regions (universes.org.json) and degenerate inputs (lead-box.org.json: "
         "coincident duplicate surfaces) are discarded and counted; involute fixtures are skipped",
